@@ -26,6 +26,7 @@ const modulePath = "github.com/a14e/gogreement"
 
 // Program is the loaded, type-checked and SSA-built tree.
 type Program struct {
+	RecvTerminal func(ci ssa.CallInstruction) bool // see flows.go
 	Root     string // directory of the analysed tree
 	Fset     *token.FileSet
 	Pkgs     []*packages.Package          // all module packages (product + testutil)
@@ -238,6 +239,7 @@ func Load(root string, goarch string) (*Program, error) {
 		}
 	}
 	P.LoadSecs = time.Since(t0).Seconds()
+	P.RecvTerminal = P.diagPosCall
 	return P, nil
 }
 
